@@ -1,5 +1,6 @@
 import Driver.C12
 import Model.MarshalHistory
+import Model.StringSpec
 namespace Driver.C02
 open Util
 open ValueSpec (CqlTy CqlVal Bytes)
@@ -12,6 +13,9 @@ ops (token syntax of Driver/C12.lean):
                                                                     of the produced bytes into a fresh Go value of type GT
   rtx p T V GT     → merr | ok V' | refuse-or-same                                  the SPECIFICATION of the cross-kind round trip of an integer column
   hseq k ; C ; C … → per call same:<bytes> | merr, then late:ok     a sequence of same-type round trips in one process (C = N|A p T V GT)
+  sstr T hex       → merr | ok bytes back re:same                 the SPECIFICATION of a Go string bound to an inet / date / integer
+                                                                    column (Model/StringSpec.lean): refuse, or the value's bytes and the
+                                                                    string a *string gets back, which re-encodes to the same bytes
   rtsame p T V GT  → merr | same                                    the PROPERTY (C02_scalar_roundtrip): whenever Marshal
                                                                     succeeds, decoding into the same Go type gives the value back
 -/
@@ -80,12 +84,29 @@ def histAnswer (ws : List String) : String :=
     if answers.any (· == "bad-op") then "bad-op" else " ".intercalate (answers ++ ["late:ok"])
   | _ => "bad-op"
 
+/-- `sstr`: the SPECIFICATION of a string source (Model/StringSpec.lean; no model of gocql) -/
+def hexOrDash (b : Bytes) : String := if b.isEmpty then "-" else toHex b
+
+def strAnswer (ws : List String) : String :=
+  match ws with
+  | [col, h] =>
+    (match pTy 2 [col], (if h == "-" then some [] else parseHex h) with
+     | some (t, []), some s =>
+       (match StrSpec.strSpec t s with
+        | .merr => "merr"
+        | .ok b back => "ok " ++ hexOrDash b ++ " " ++ hexOrDash back ++ " re:same"
+        | .inconsistent => "spec-inconsistent"
+        | .undocumented => "undocumented")
+     | _, _ => "bad-op")
+  | _ => "bad-op"
+
 def step (_ : Unit) (ws : List String) : Unit × String :=
   ((), match ws with
   | "rt" :: r => runRT roundTrip r
   | "rtsame" :: r => runRT roundTripSame r
   | "rtx" :: r => runRT crossAnswer r
   | "hseq" :: r => histAnswer r
+  | "sstr" :: r => strAnswer r
   | _ => "bad-op")
 
 def init : Unit := ()
